@@ -331,7 +331,7 @@ theorem pureTop_ok (k : K) (hf : (plan k).fail = false) (r : Rank F E) (rs : Lis
     lastC_none_of_not_mem _ _ (fun e he => hrest _ he rfl)
   unfold pureTop
   rw [hf, hr, hw]
-  simp [lastE, lastC, hE, hC]
+  simp only [Bool.false_eq_true, if_false, List.isEmpty_cons, lastE, lastC, hE, hC, if_true]
 
 end
 
@@ -432,8 +432,8 @@ theorem pure_agrees (cfg : Cfg) (ms : List Meth) (wf : cfg.H.WF) (anti : cfg.H.A
   have slots : ∀ e ∈ k, SlotOK cfg ms e := fun e he => slotOK_of_cls cfg ms wf anti hst e (hkc e he)
   obtain ⟨cs, hcs, ok⟩ := candidates_ok cfg ms hid k hne slots
   have X : Ctx cfg ms k cs := ⟨wf, hid, slots, ok, hcc, htie⟩
-  have hplan : plan cfg ms k = { ranks := mkRanks ms (ranks cs),
-      allCodes := (sortCands cs).filterMap (fun c => codeOf ms c.id) } := by
+  have hplan : plan cfg ms k =
+      { ranks := mkRanks ms (ranks cs), allCodes := (sortCands cs).filterMap (fun c => codeOf ms c.id) } := by
     unfold plan
     rw [hcs]
     rfl
